@@ -54,10 +54,11 @@ func (ip *BaseIP) ID() string {
 // contains information and helper methods for a physical file on a normal disk.
 type FileIP struct {
 	*BaseIP
-	buffer    *bytes.Buffer
-	doStream  bool
-	lock      *sync.Mutex
-	SubStream *InPort
+	buffer      *bytes.Buffer
+	doStream    bool
+	lock        *sync.Mutex
+	SubStream   *InPort
+	tempBaseDir string // temp directory of the task producing the IP, if any
 }
 
 // NewFileIP creates a new FileIP
@@ -237,9 +238,15 @@ func (ip *FileIP) Read() []byte {
 
 // Write writes a byte array ([]byte) to the file's temp file path
 func (ip *FileIP) Write(dat []byte) {
-	ip.createDirs("")
-	err := ioutil.WriteFile(ip.TempPath(), dat, 0644)
-	CheckWithMsg(err, "Could not write to temp file: "+ip.TempPath())
+	// Out-IPs of a task are written inside the task's temp directory, from
+	// where they are moved to their final path when the task has finished
+	ip.createDirs(ip.tempBaseDir)
+	tempPath := ip.TempPath()
+	if ip.tempBaseDir != "" {
+		tempPath = ip.tempBaseDir + "/" + tempPath
+	}
+	err := ioutil.WriteFile(tempPath, dat, 0644)
+	CheckWithMsg(err, "Could not write to temp file: "+tempPath)
 }
 
 const (
